@@ -1101,7 +1101,93 @@ fn check_trap_ops(c: &TrapOpsCase) -> Outcome {
 
 pub static TRAPOPS: Driver<TrapOpsCase> = Driver::new("C11", "trap-operands", check_trap_ops);
 
+// -------------------------------------------------------------------------------------------
+// (f) two trapped signals pending at one command boundary, the action of one of them is a syntax
+// error: the shell is aborted there (docs/src/termination.md), so nothing may run afterwards - in
+// particular not the other signal's action
+
+#[derive(Clone, Debug, PartialEq, Eq, Hash, Serialize, Deserialize)]
+pub struct ActErrCase {
+    /// the subshell sends USR2 before USR1
+    pub rev: bool,
+    /// which syntax error: 0 `fi`, 1 `)`, 2 unclosed quote, 3 `if then`
+    pub err: u8,
+    pub sameline: bool,
+    pub sched: Option<u64>,
+}
+
+fn check_act_err(c: &ActErrCase) -> Outcome {
+    let bad = ["mark B; fi", "mark B; )", "mark B; mark \"x", "if then mark B; fi"][c.err as usize % 4];
+    // which of two pending signals is handled first is not specified: run both assignments of the
+    // erroneous action; the good action can precede the abort in at most one of them
+    let mut good_ran = 0;
+    let mut scripts = String::new();
+    for bad_on_usr1 in [true, false] {
+        let (a1, a2) = if bad_on_usr1 { (bad, "mark G") } else { ("mark G", bad) };
+        let send = if c.rev { "(kill -s USR2 $$; kill -s USR1 $$)" } else { "(kill -s USR1 $$; kill -s USR2 $$)" };
+        let sep = if c.sameline { "; " } else { "\n" };
+        let script = format!("trap '{}' USR1\ntrap '{}' USR2\nmark 1{sep}{send}{sep}mark 2{sep}mark 3\n", a1.replace('\'', "'\\''"), a2.replace('\'', "'\\''"));
+        let mut s = vsys::Setup::script(&script);
+        if let Some(seed) = c.sched {
+            s.chooser = Chooser::Seeded(seed);
+            s.preempt = true;
+        }
+        let r = vsys::run(&s);
+        let ctx = |m: String| format!("{m}\nsched {:?}\nscript:\n{script}stderr: {:?}", c.sched, r.stderr.lines().next());
+        if let Some(p) = &r.panic {
+            return Outcome::fail(ctx(format!("panic: {p}")));
+        }
+        if r.log.deadlock || !r.finished {
+            return Outcome::fail(ctx("shell did not finish".into()));
+        }
+        let got: Vec<String> = r.main_trace().iter().map(|t| t.args[0].clone()).collect();
+        if got.iter().any(|g| g == "B" || g == "2" || g == "3") {
+            return Outcome::fail(ctx(format!("commands run: {got:?}: nothing of an action that is a syntax error may run, and the non-interactive shell is aborted at that point (no `mark 2`, no `mark 3`)")));
+        }
+        if got.first().map(String::as_str) != Some("1") {
+            return Outcome::fail(ctx(format!("commands run: {got:?}; `mark 1` expected first")));
+        }
+        if r.status == 0 || r.stderr.is_empty() {
+            return Outcome::fail(ctx(format!("exit status {} / no diagnostic after a syntax error in a trap action", r.status)));
+        }
+        if got.iter().filter(|g| *g == "G").count() > 1 {
+            return Outcome::fail(ctx(format!("the other action ran more than once: {got:?}")));
+        }
+        if got.iter().any(|g| g == "G") {
+            good_ran += 1;
+        }
+        scripts.push_str(&script);
+        scripts.push_str("---\n");
+    }
+    if good_ran == 2 {
+        return Outcome::fail(format!(
+            "the other signal's action ran in both assignments of the erroneous action: in one of them it was handled after the syntax error, i.e. after the point where the shell is aborted\nsched {:?}\nscripts:\n{scripts}",
+            c.sched
+        ));
+    }
+    Outcome::pass(true).class(if good_ran == 1 { "other-action-before-the-abort-in-one-assignment" } else { "other-action-never-ran" })
+}
+
+pub static ACTERR: Driver<ActErrCase> = Driver::new("C11", "action-syntax-error", check_act_err);
+
+fn act_err_cases(seeds: u64, base: u64) -> Vec<ActErrCase> {
+    let mut v = vec![];
+    for rev in [false, true] {
+        for err in 0..4u8 {
+            for sameline in [false, true] {
+                v.push(ActErrCase { rev, err, sameline, sched: None });
+                for k in 0..seeds {
+                    v.push(ActErrCase { rev, err, sameline, sched: Some(base.wrapping_mul(2654435761).wrapping_add(k * 104729 + err as u64)) });
+                }
+            }
+        }
+    }
+    v
+}
+
 pub fn run(ctx: &Ctx, st: &mut Stats) {
+    // (f) syntax error in one of two pending actions
+    ACTERR.run_list_par(ctx, st, act_err_cases(ctx.tier.pick(3, 40), ctx.seed));
     // (e) several conditions in one trap command
     TRAPOPS.run_random(ctx, st, ctx.tier.pick(8_000, 300_000), || {
         prop::collection::vec((0u8..4, prop::bool::weighted(0.3), prop::collection::vec(0u8..9, 1..5)), 1..4).prop_map(|cmds| TrapOpsCase { cmds })
@@ -1183,6 +1269,7 @@ pub fn replay(driver: &str, case: &serde_json::Value) -> Result<(Outcome, Option
         "chain" => CHAIN.replay_known(case),
         "reenter" => REENTER.replay_known(case),
         "trap-operands" => TRAPOPS.replay_known(case),
+        "action-syntax-error" => ACTERR.replay_known(case),
         _ => Err(format!("unknown driver {driver}")),
     }
 }
